@@ -226,7 +226,8 @@ def write_hash_list(hash_list: MHLHashList, file_path: str):
 
     # write to a temporary name first and move the complete file into place at the end, so that an interrupted
     # run never leaves a half-written manifest under a name that is picked up when the history is loaded
-    temp_file_path = file_path + ".partial"
+    # (a fixed, short temporary name: the manifest name itself may already be as long as the file system allows)
+    temp_file_path = os.path.join(directory_path, "ascmhl_manifest.partial")
     file = open(temp_file_path, "wb")
     file.write(b'<?xml version="1.0" encoding="UTF-8"?>\n<hashlist version="2.0" xmlns="urn:ASC:MHL:v2.0">\n')
     current_indent = "  "
